@@ -778,8 +778,35 @@ impl ElementOrSetOperation {
     }
 }
 
+impl SetOperation {
+    /// Whether one of the elements of the set operation was written with an extension marker.
+    pub(crate) fn carries_extension_marker(&self) -> bool {
+        self.base.is_marked_extensible()
+            || match &*self.operant {
+                ElementOrSetOperation::Element(e) => e.is_marked_extensible(),
+                ElementOrSetOperation::SetOperation(s) => s.carries_extension_marker(),
+            }
+    }
+}
+
 impl SubtypeElements {
-    fn mark_extensible(&mut self) {
+    fn is_marked_extensible(&self) -> bool {
+        matches!(
+            self,
+            SubtypeElements::SingleValue {
+                extensible: true,
+                ..
+            } | SubtypeElements::ValueRange {
+                extensible: true,
+                ..
+            } | SubtypeElements::ContainedSubtype {
+                extensible: true,
+                ..
+            }
+        )
+    }
+
+    pub(crate) fn mark_extensible(&mut self) {
         if let SubtypeElements::SingleValue { extensible, .. }
         | SubtypeElements::ValueRange { extensible, .. }
         | SubtypeElements::ContainedSubtype { extensible, .. } = self
